@@ -78,7 +78,8 @@ for raw in open(script):
         if l is None:
             log.write(json.dumps(['timeout', cmd]) + '\\n'); break
         log.write(json.dumps(['got', l]) + '\\n')
-        if l.strip() in ('done', 'error', 'shutdown in progress') or l.startswith('error') or l.strip() in ('{ "answer": "done" }', '{ "answer": "error" }') or '"answer": "done"' in l or '"answer": "error"' in l:
+        # an error is reported as 'error: <text>' (payload) followed by the terminal line 'error'
+        if l.strip() in ('done', 'error', 'shutdown in progress') or '"answer": "done"' in l or '"answer": "error"' in l:
             break
 log.write(json.dumps(['end', '']) + '\\n')
 while True:
